@@ -68,8 +68,10 @@ func (t *tracker) count() int {
 }
 
 // take waits until at least want calls are there (or the timeout), then returns and clears them.
-func (t *tracker) take(want int) ([]string, bool) {
-	deadline := time.Now().Add(10 * time.Second)
+func (t *tracker) take(want int) ([]string, bool) { return t.takeFor(want, 10*time.Second) }
+
+func (t *tracker) takeFor(want int, d time.Duration) ([]string, bool) {
+	deadline := time.Now().Add(d)
 	for t.count() < want && time.Now().Before(deadline) {
 		time.Sleep(50 * time.Microsecond)
 	}
@@ -442,6 +444,10 @@ func main() {
 	a := common.ParseArgs()
 	out := common.NewOut()
 	defer out.Flush()
+	if dir := a.Extra["child"]; dir != "" {
+		childMain(dir)
+		return
+	}
 	kind := a.Extra["kind"]
 	if kind == "" {
 		kind = "fsm"
@@ -470,6 +476,9 @@ func main() {
 				}
 			default:
 				if kind == f[1] {
+					if kind == "net" {
+						events = normalizeNet(events)
+					}
 					runRaftCase(out, f[1], n, ops, events)
 				}
 			}
